@@ -34,6 +34,20 @@ class Lock:
         self.f.close()
 
 
+_TEXT = {}
+
+
+def _read_cached(path):
+    if path not in _TEXT:
+        _TEXT.clear() if len(_TEXT) > 4 else None
+        _TEXT[path] = open(path).read()
+    return _TEXT[path]
+
+
+def _repo_tag():
+    return '' if REPO == '/repo' else '-' + hashlib.sha256(REPO.encode()).hexdigest()[:10]
+
+
 def mir_dump(verbose=True):
     """-> (plain_text, verbose_text|None, info). Regenerated whenever /repo's sources change (cache keyed by their hash)."""
     h = repo_hash()
@@ -42,7 +56,9 @@ def mir_dump(verbose=True):
     plain = os.path.join(d, h + '.mir')
     verb = os.path.join(d, h + '.vmir')
     info = {'repo_hash': h, 'cached': True, 'dump_s': 0.0}
-    with Lock('mir'):
+    if os.path.exists(plain) and (os.path.exists(verb) or not verbose):       # written atomically: no lock needed to read
+        return _read_cached(plain), (_read_cached(verb) if verbose else None), info
+    with Lock('mir' + _repo_tag()):
         if not (os.path.exists(plain) and (os.path.exists(verb) or not verbose)):
             info['cached'] = False
             t = time.time()
@@ -50,7 +66,7 @@ def mir_dump(verbose=True):
                 if out == verb and not verbose:
                     continue
                 # force a re-run of rustc even if cargo thinks the crate is fresh
-                env = dict(ENV, CARGO_TARGET_DIR=os.path.join(CACHE, 'mir-target' if REPO == '/repo' else 'mir-target-' + hashlib.sha256(REPO.encode()).hexdigest()[:10]))
+                env = dict(ENV, CARGO_TARGET_DIR=os.path.join(CACHE, 'mir-target' if REPO == '/repo' else 'mir-target-alt'))
                 os.utime(os.path.join(REPO, 'visitor/src/lib.rs')) if False else None
                 cmd = ['cargo', '+nightly', 'rustc', '--offline', '--lib', '--', '-Zunpretty=mir', '-C', 'debug-assertions=off',
                        '-C', 'overflow-checks=on', '--cfg', 'mirdump_' + h[:8] + ('v' if extra else 'p')] + extra
@@ -62,20 +78,41 @@ def mir_dump(verbose=True):
                 os.replace(out + '.tmp', out)
             info['dump_s'] = round(time.time() - t, 1)
             # keep the cache small: drop dumps of other trees
-            for f in glob.glob(os.path.join(d, '*')):
-                if not os.path.basename(f).startswith(h):
+            old = sorted((f for f in glob.glob(os.path.join(d, '*')) if not os.path.basename(f).startswith(h)), key=os.path.getmtime)
+            for f in old[:-8]:          # keep the last few trees (scratch worktrees run beside /repo)
+                try:
                     os.remove(f)
-    return open(plain).read(), (open(verb).read() if verbose else None), info
+                except OSError:
+                    pass
+    return _read_cached(plain), (_read_cached(verb) if verbose else None), info
+
+
+_E3_BUILT = {}
 
 
 def e3_build():
+    h = repo_hash()
+    if h not in _E3_BUILT:
+        _E3_BUILT.clear()
+        _E3_BUILT[h] = _e3_build(h)
+    return _E3_BUILT[h]
+
+
+def _e3_src_hash():
+    hh = hashlib.sha256()
+    for f in sorted(glob.glob(os.path.join(VERIF, 'e3', 'src', '*.rs'))) + [os.path.join(VERIF, 'e3', 'Cargo.toml')]:
+        hh.update(open(f, 'rb').read())
+    return hh.hexdigest()[:12]
+
+
+def _e3_build(h):
     """build the native driver against /repo's current tree; returns the binary path.
     With VERIF_REPO pointing elsewhere (seed testing in a scratch worktree) a private copy of the driver crate and target dir is used."""
     tgt = os.path.join(CACHE, 'e3-target')
     src = os.path.join(VERIF, 'e3')
     if REPO != '/repo':
         tag = hashlib.sha256(REPO.encode()).hexdigest()[:10]
-        tgt = os.path.join(CACHE, 'e3-alt-' + tag, 'target')
+        tgt = os.path.join(CACHE, 'e3-alt-target')        # shared by all scratch worktrees: only the path crates rebuild
         alt = os.path.join(CACHE, 'e3-alt-' + tag, 'e3')
         os.makedirs(os.path.join(alt, 'src'), exist_ok=True)
         with open(os.path.join(alt, 'Cargo.toml'), 'w') as f:
@@ -83,7 +120,15 @@ def e3_build():
         for fn in os.listdir(os.path.join(src, 'src')):
             shutil.copy(os.path.join(src, 'src', fn), os.path.join(alt, 'src', fn))
         src = alt
-    with Lock('e3'):
+    stamp = os.path.join(CACHE, 'e3-stamp' + _repo_tag())
+    want = h + ':' + _e3_src_hash()
+    final = os.path.join(os.path.dirname(src), 'e3.bin') if REPO != '/repo' else os.path.join(tgt, 'debug', 'e3')
+    try:
+        if open(stamp).read() == want and os.path.exists(final):        # this tree's driver is already built
+            return final
+    except OSError:
+        pass
+    with Lock('e3' + ('' if REPO == '/repo' else '-alt')):
         lock_src = os.path.join(REPO, 'Cargo.lock')
         lock_dst = os.path.join(src, 'Cargo.lock')
         if not os.path.exists(lock_dst) or open(lock_src).read() != open(lock_dst).read() and 'name = "e3"' not in open(lock_dst).read():
@@ -92,7 +137,17 @@ def e3_build():
                            capture_output=True, text=True)
         if r.returncode != 0:
             raise RuntimeError('e3 build failed:\n' + r.stderr[-3000:])
-    return os.path.join(tgt, 'debug', 'e3')
+        if REPO != '/repo':
+            # the shared target dir's binary is overwritten by the next scratch worktree: keep a private copy
+            priv = os.path.join(os.path.dirname(src), 'e3.bin')
+            built = os.path.join(tgt, 'debug', 'e3')
+            if not os.path.exists(priv) or open(priv, 'rb').read() != open(built, 'rb').read():
+                shutil.copy2(built, priv + '.tmp')
+                os.replace(priv + '.tmp', priv)
+        with open(stamp + '.tmp', 'w') as f:
+            f.write(want)
+        os.replace(stamp + '.tmp', stamp)
+    return final
 
 
 class E3:
